@@ -152,7 +152,9 @@ def make(fmt, rng, variant="plain", natom=None):
         if fmt == "mol2":
             kw["atcharges"] = {"mol2charges": np.array([round(rng.uniform(-1, 1), 4) for _ in range(natom)])}
         if fmt in ("sdf", "mol2", "pdb") and natom >= 2 and rng.random() < 0.7:
-            kw["bonds"] = np.array([[i, i + 1, rng.choice([1, 2, 3])] for i in range(natom - 1)])
+            # bond type numbers the periodic tables do not know (an SDF reader keeps them as they are) are the writer's problem,
+            # never the caller's array's
+            kw["bonds"] = np.array([[i, i + 1, rng.choice([1, 2, 3, 1, 2, 3, 12, 0])] for i in range(natom - 1)])
         return IOData(**kw)
     if fmt == "poscar":
         cell = np.diag([8.0, 9.0, 10.0]) * ANG
@@ -206,7 +208,7 @@ def make(fmt, rng, variant="plain", natom=None):
         return IOData(atnums=atnums, atcoords=atcoords, charge=0.0, spinpol=0.0, title=title, extra=extra, **kw)
     # wavefunction formats
     conv = conventions_for(fmt)
-    if variant == "fatal_pure":
+    if variant in ("fatal_pure", "fatal_pure_in_generalized"):
         from iodata.convert import HORTON2_CONVENTIONS
         conv = {**{k: v for k, v in HORTON2_CONVENTIONS.items() if k[1] == "p" and k[0] <= 4}, **conv}
     scheme = "segmented"
@@ -223,6 +225,10 @@ def make(fmt, rng, variant="plain", natom=None):
     if variant == "fatal_pure":
         from iodata.basis import Shell
         obasis.shells.append(Shell(0, [2], ["p"], [0.9], [[1.0]]))
+    if variant == "fatal_pure_in_generalized":
+        # a pure contraction that is not the first one of a generalized shell: segmenting the shell does not make it Cartesian
+        from iodata.basis import Shell
+        obasis.shells.append(Shell(0, [1, 2], ["c", "p"], [0.9, 0.4], [[1.0, 0.5], [0.3, 0.2]]))
     occ = "closed"
     kind = "restricted"
     if variant == "convertible_amb":
@@ -262,8 +268,8 @@ VARIANTS = {
              "fatal_nonaufbau_ualpha", "fatal_nonaufbau_ubeta", "fatal_fractional_ubeta_window", "unsorted"],
     "molden": ["plain", "unsorted", "convertible", "convertible_amb", "fatal_generalized"],
     "molekel": ["plain", "unsorted", "convertible", "convertible_amb", "fatal_generalized"],
-    "wfn": ["plain", "unsorted", "convertible", "convertible_amb", "fatal_generalized", "fatal_pure"],
-    "wfx": ["plain", "unsorted", "convertible", "convertible_amb", "fatal_generalized", "fatal_pure"],
+    "wfn": ["plain", "unsorted", "convertible", "convertible_amb", "fatal_generalized", "fatal_pure", "fatal_pure_in_generalized"],
+    "wfx": ["plain", "unsorted", "convertible", "convertible_amb", "fatal_generalized", "fatal_pure", "fatal_pure_in_generalized"],
     "json_qcschema": ["plain", "qcinput", "qcoutput", "qcoutput_energy", "fatal_schema"],
 }
 
